@@ -84,6 +84,9 @@ MUTANTS = [
      "\n    def deleteObject"),
     # (skipping findReachableFromFuture altogether only makes packs *fail*
     # with PackError -- no property demands that a pack succeeds)
+    ('C05', 'finish-failure-keeps-running', FS,
+     "            logger.critical(\"Failure in _finish. Closing.\", exc_info=True)\n            self.close()\n            raise",
+     "            logger.critical(\"Failure in _finish. Closing.\", exc_info=True)\n            raise"),
     ('C07', 'copier-prev-zero', PK,
      "        old = self._index.get(oid, 0)\n        # Calculate the pos the record will have in the storage.",
      "        old = 0\n        # Calculate the pos the record will have in the storage."),
